@@ -34,7 +34,7 @@ Definition traces_eqb : list (string * trace) -> list (string * trace) -> bool :
 Definition script (l1 l256 : list answer) : string -> oracle :=
   fun a k _ => nth k (if String.eqb a "diffie-hellman-group-exchange-sha1" then l1 else l256) NoSize.
 Definition mkpeer (sw : option string) (k : kexlists) (dh : list (string * Z)) : peer :=
-  {| pr_client_audit := false; pr_banner_software := sw; pr_software := None; pr_k := k; pr_hostkeys := []; pr_dh := dh; pr_rate_notes := "" |}.
+  {| pr_client_audit := false; pr_banner_software := sw; pr_software := None; pr_k := k; pr_hostkeys := []; pr_dh := dh; pr_rate_notes := ""; pr_general := [] |}.
 Definition final_db (sw : option string) (k : kexlists) (dh : list (string * Z)) (d : db) : db := p_db (post_process false sw k dh "" d).
 '''
 
@@ -416,10 +416,10 @@ def run(ctx):
         for i, (st, S, ob) in enumerate(extra):
             cases.append({'kind': 'family', 'style': st, 'S': S, 'banner': rng.choice(OPENSSH_BANNERS if ob else OTHER_BANNERS), 'kexv': ['sha256', 'sha1', 'gex-first'][i % 3], 'js': (i % 4 == 3)})
         # faulty servers: refuse / disconnect / garbage / stall always, and after some answers
-        for kind in ('close', 'disconnect', 'garbage', 'stall'):
+        for kind in ('close', 'disconnect', 'garbage', 'stall', 'debug-disconnect', 'debug-ignore'):
             cases.append({'kind': 'fault', 'fault': {'seq': [], 'then': kind}, 'banner': OPENSSH_BANNERS[0], 'kexv': 'sha256' if kind == 'stall' else 'both', 'timeout': 1, 'js': False})
         for j in range(6 if q else 60):
-            seq = [rng.choice([None, 'garbage', 'disconnect', 1024, 2048, 3072, 4096, 1536, 2047]) for _ in range(rng.randrange(1, 12))]
+            seq = [rng.choice([None, 'garbage', 'disconnect', 'debug-disconnect', 1024, 2048, 3072, 4096, 1536, 2047]) for _ in range(rng.randrange(1, 12))]
             cases.append({'kind': 'fault', 'fault': {'seq': seq, 'then': rng.choice(['close', 'garbage', 'disconnect'])}, 'banner': rng.choice(OPENSSH_BANNERS + OTHER_BANNERS), 'kexv': rng.choice(['both', 'sha256']), 'timeout': 1, 'js': (j % 3 == 2)})
     with runner.Pool() as pool:
         results = pool.map(cli_case, cases)
